@@ -36,10 +36,14 @@ func (c Counts) Effective() int { return c.Create + c.Update + c.Patch + c.Delet
 type Counter struct {
 	// OnWrite, if set, is called (while counting) before every mutating call with the object as passed by the caller.
 	OnWrite func(verb string, obj runtime.Object)
-	mu      sync.Mutex
-	on     bool
-	c      Counts
-	scheme *runtime.Scheme
+	// BeforeUpdate, if set, is called on every Update after it was counted and before it is handed to the store,
+	// with the un-intercepted client: whatever it writes through `inner` is not counted and lands in the store
+	// between the caller's read and the caller's Update (the store's optimistic concurrency check then decides).
+	BeforeUpdate func(ctx context.Context, inner client.WithWatch, obj client.Object)
+	mu           sync.Mutex
+	on           bool
+	c            Counts
+	scheme       *runtime.Scheme
 }
 
 func (k *Counter) Start() {
@@ -143,6 +147,9 @@ func New(scheme *runtime.Scheme, configure func(b *fake.ClientBuilder)) (client.
 		},
 		Update: func(ctx context.Context, c client.WithWatch, obj client.Object, opts ...client.UpdateOption) error {
 			k.add("update", obj)
+			if k.BeforeUpdate != nil {
+				k.BeforeUpdate(ctx, c, obj)
+			}
 			return c.Update(ctx, obj, opts...)
 		},
 		Patch: func(ctx context.Context, c client.WithWatch, obj client.Object, p client.Patch, opts ...client.PatchOption) error {
